@@ -86,14 +86,15 @@ def run_child(tmp, spec):
     return status, res, events, time.time() - t0
 
 
-def analyse_events(events):
+def analyse_events(events, din=None):
     """From the worker event log: completion order, pid->tasks, max concurrency, writers per output path."""
     starts, ends = {}, {}
     writers = collections.defaultdict(set)
     pids = collections.defaultdict(list)
     order = []
     for e in events:
-        t = os.path.basename(e.get('task') or '')
+        t = e.get('task') or ''
+        t = os.path.relpath(t, din) if (din and t) else os.path.basename(t)
         if e['ev'] == 'start':
             starts[t] = e['t']
             pids[e['pid']].append(t)
@@ -127,12 +128,13 @@ def run_shard(ctx, p):
         din = os.path.join(tmp, 'in')
         os.makedirs(din)
         for f in case['files']:
+            os.makedirs(os.path.dirname(os.path.join(din, f['name'])), exist_ok=True)
             with open(os.path.join(din, f['name']), 'wb') as fh:
                 fh.write(f['data'])
         names = sorted(f['name'] for f in case['files'])
         kinds = {f['name']: f['kind'] for f in case['files']}
         opts = case['options']
-        base = {'repo': env.REPO, 'converter': conv, 'dir_in': din, 'native_preseed': True, 'max_delay_ms': 30}
+        base = {'repo': env.REPO, 'converter': conv, 'dir_in': din, 'native_preseed': True, 'max_delay_ms': 30, 'recurse': case.get('recurse', False)}
         base.update(opts)
         runs = []   # (tag, mode, jobs, delay_seed)
         runs.append(('alone', 'alone', 0, 0))
@@ -153,7 +155,7 @@ def run_shard(ctx, p):
             if status == 'watchdog':
                 rec.inconclusive_because('batch run %s of converter %s hit the %ds wall-clock watchdog (files %s)' % (tag, conv, CHILD_TIMEOUT, kinds))
                 continue
-            ev = analyse_events(events)
+            ev = analyse_events(events, din)
             rec.mon('worker_events', len(events))
             rec.add('tasks_observed', len(ev['order']))
             # ---- no abort
@@ -162,7 +164,7 @@ def run_shard(ctx, p):
                 rec.violation('no_abort', 'child-died', 'batch run %s died: %s' % (tag, status), dict(w, status=status))
                 continue
             if res['raised']:
-                bad = [os.path.basename(e['task']) for e in ev['raised']]
+                bad = [os.path.relpath(e['task'], din) for e in ev['raised']]
                 rec.violation('no_abort', 'batch-raised', 'batch conversion (%s, %s) raised %s; raising task(s): %s' % (conv, tag, res['raised'], [(b, kinds.get(b)) for b in bad]),
                               dict(w, raised=res['raised'], traceback=res.get('traceback'), raising_tasks=[{'name': b, 'kind': kinds.get(b)} for b in bad],
                                    raising_inputs={b: next(f['data'] for f in case['files'] if f['name'] == b) for b in bad[:1]}))
